@@ -123,6 +123,48 @@ func hasTruncate(pl *Plan) bool {
 	return false
 }
 
+// resolveFromEnd turns "that many bytes before the end of the fault-free
+// stream" into an absolute offset, on a copy of the scenario.
+func resolveFromEnd(sc *Scenario, base *Result) *Scenario {
+	need := false
+	for _, pp := range sc.Plan.Peers {
+		if pp != nil {
+			for _, f := range pp.Faults {
+				need = need || f.BackFromEnd > 0
+			}
+		}
+	}
+	if !need {
+		return sc
+	}
+	totals := map[string]int{}
+	for _, st := range base.Run.stages {
+		if st.nth == 0 && st.out != nil {
+			totals[st.kind] = st.out.total
+		}
+	}
+	r := *sc
+	r.Plan.Peers = map[string]*PeerPlan{}
+	for k, pp := range sc.Plan.Peers {
+		if pp == nil {
+			continue
+		}
+		q := *pp
+		q.Faults = append([]Fault(nil), pp.Faults...)
+		for i := range q.Faults {
+			if b := q.Faults[i].BackFromEnd; b > 0 {
+				at := totals[k] - b
+				if at < 0 {
+					at = 0
+				}
+				q.Faults[i].AtByte = at
+			}
+		}
+		r.Plan.Peers[k] = &q
+	}
+	return &r
+}
+
 func runFaulted(c *Ctx, sc *Scenario, site *Site, base []byte, engineB bool) *Violation {
 	why := describeFaults(&sc.Plan)
 	if hasTruncate(&sc.Plan) && !engineB {
@@ -304,7 +346,12 @@ func checkC10(c *Ctx, rt *rapid.T) {
 			for _, k := range peerKinds {
 				pl.Peers[k].Faults = nil
 			}
-			pl.Peers["batch"].Faults = []Fault{{Kind: "truncate", AtByte: g.Int(0, 2500, "lostat"), StdinLines: -1}}
+			f := Fault{Kind: "truncate", AtByte: g.Int(0, 2500, "lostat"), StdinLines: -1}
+			if g.Bool("lostfromend") {
+				// annotated tags are requested last: cuts near the end of the stream
+				f.BackFromEnd = g.Int(1, 600, "lostback")
+			}
+			pl.Peers["batch"].Faults = []Fault{f}
 		}
 		if g.Chance(1, 5, "stall") {
 			k := g.PickStr(peerKinds, "stallpeer")
@@ -664,6 +711,27 @@ func enumerateC10(c *Ctx, sc0 *Scenario) *enumResult {
 			}
 		}
 	}
+	// lost output: the cat-file --batch stream ends at every offset in turn
+	// while the process reports success (own budget of points)
+	if total, seen := totals["batch"]; seen {
+		saved := points
+		points = 0
+		if c.Tier != "thorough" {
+			limit = 400
+		}
+		step := 1
+		if total > limit {
+			step = 1 + total/limit
+		}
+		// from the end backwards: the last requested objects are the annotated tags
+		for off := total - 1; off >= 0; off -= step {
+			if r := try("batch", Fault{Kind: "truncate", AtByte: off, StdinLines: -1}); r != nil {
+				return r
+			}
+		}
+		c.Stats.Extra["enum_lost_output_points"] += float64(points)
+		points += saved
+	}
 	// a sample of the enumerated points is judged again by real processes
 	// (engine B): exit statuses and signals as exec.Cmd and go-pipe really see them
 	if os.Getenv("VERIF_GITSIZER_BIN") != "" && !hasArg(sc0.Inv.Args, "--progress") {
@@ -728,7 +796,9 @@ func judgeC10(c *Ctx, sc *Scenario) *Violation {
 		if p.Mode == "oneshot" {
 			return judgeOneshot(c, sc, site, base.Stdout, p.EngineB)
 		}
-		if v := runFaulted(c, sc, site, base.Stdout, false); v != nil {
+		rsc := resolveFromEnd(sc, base)
+		if v := runFaulted(c, rsc, site, base.Stdout, false); v != nil {
+			sc.Log = rsc.Log
 			return v
 		}
 		if p.EngineB {
